@@ -28,7 +28,11 @@ ASSUMPTIONS = [
     'against the reference value',
     'mean/std/var and non-commuting function pairs only on one dimension',
 ]
-HOOKS = ['applyAlongDimensions.return', 'oracle.compare']
+HOOKS = ['applyAlongDimensions.return', 'reduce_dim.return',
+         'convolve_dim.return', 'oracle.compare']
+FACETS_REQUIRED = {t: ['form:method', 'form:reduce_dim',
+                       'form:convolve_dim']
+                   for t in ('quick', 'thorough')}
 MIN_DISTINCT = {'quick': 600, 'thorough': 8000}
 N = {'quick': 2500, 'thorough': 50000}
 LINEAR = ['sum', 'diff', 'conv_valid', 'conv_same', 'cumsum', 'every2', 'rev']
@@ -82,7 +86,22 @@ def gen(rng, idx, tier, seed):
                    str(rng.choice(PERM))]
             if not ok(fns[1], chosen[1][1]):
                 fns[1] = fns[0]
-    return {'file': fs, 'apply': [[c[0], f] for c, f in zip(chosen, fns)]}
+    spec = {'file': fs, 'apply': [[c[0], f] for c, f in zip(chosen, fns)]}
+    if not ioapi and len(chosen) == 1 and idx % 3 == 1:
+        # the command-line string forms of core/_functions.py
+        if idx % 2 == 1 and chosen[0][1] >= 1:
+            nw = int(rng.integers(1, 4))
+            w = [float(x) for x in rng.choice(
+                [1.0, 2.0, -1.0, 0.5, 0.25, 3.0], nw)]
+            mode = str(rng.choice(['valid', 'same', 'full']))
+            if mode == 'valid' and chosen[0][1] < nw:
+                mode = 'full'
+            spec['apply'] = [[chosen[0][0], 'cdim']]
+            spec['form'] = 'convolve_dim'
+            spec['conv'] = {'mode': mode, 'weights': w}
+        elif fns[0] in ops.REDUCERS:
+            spec['form'] = 'reduce_dim'
+    return spec
 
 
 def build(fs):
@@ -124,12 +143,19 @@ def ref_reduce(data, mask, ax, name):
     return v, cnt == 0
 
 
+_EXTRA = {}
+
+
+def callable_of(fn):
+    return _EXTRA[fn] if fn in _EXTRA else ops.CALLABLES[fn][0]
+
+
 def ref_callable(data, mask, ax, fn):
     a = np.ma.array(data.astype('f8') if data.dtype.kind == 'f' else
                     data.astype('i8'), mask=mask)
     if data.shape[ax] == 0 or a.size == 0:
         raise ValueError('empty')
-    out = np.ma.apply_along_axis(ops.CALLABLES[fn][0], ax, a)
+    out = np.ma.apply_along_axis(callable_of(fn), ax, a)
     return np.ma.getdata(out), np.ma.getmaskarray(out)
 
 
@@ -141,7 +167,25 @@ def run(spec, res):
     facets = ['fn:' + fn for fn in fnmap.values()] + [
         'ndims:%d' % len(fnmap), 'ioapi' if ioapi else 'core']
 
+    form = spec.get('form', 'method')
+    facets.append('form:' + form)
+    _EXTRA.clear()
+    if form == 'convolve_dim':
+        cw = np.array(spec['conv']['weights'], dtype='f')
+        cmode = spec['conv']['mode']
+        _EXTRA['cdim'] = lambda x_: np.convolve(cw, x_, mode=cmode)
+
     def call(order):
+        if form == 'reduce_dim':
+            from PseudoNetCDF.core._functions import reduce_dim
+            res.hook('reduce_dim.return')
+            return reduce_dim(f, '%s,%s' % tuple(order[0]))
+        if form == 'convolve_dim':
+            from PseudoNetCDF.core._functions import convolve_dim
+            res.hook('convolve_dim.return')
+            return convolve_dim(f, ','.join(
+                [order[0][0], cmode] + [repr(w) for w in
+                                        spec['conv']['weights']]))
         kw = {}
         for d, fn in order:
             kw[d] = ops.CALLABLES[fn][0] if fn in ops.CALLABLES else fn
@@ -154,10 +198,12 @@ def run(spec, res):
         res.hook('applyAlongDimensions.return')
         res.ev(digest(spec), True, facets + ['raised'])
         if not zero:
-            res.viol('in-domain-raise:%s' % type(e).__name__,
-                     'applyAlongDimensions(%s) raised %r' % (spec['apply'],
-                                                            e),
-                     apply=spec['apply'], excmsg=str(e)[:300])
+            res.viol('in-domain-raise:%s' % type(e).__name__ + (
+                         '' if form == 'method' else ':' + form),
+                     '%s(%s) raised %r' % (
+                         'applyAlongDimensions' if form == 'method' else form,
+                         spec['apply'], e),
+                     apply=spec['apply'], excmsg=str(e)[:300], form=form)
         return
     res.hook('applyAlongDimensions.return')
     problems = []
@@ -182,7 +228,7 @@ def run(spec, res):
             data, mask = vs.data, vs.mask
             for ax, d in order:
                 fn = fnmap[d]
-                if fn in ops.CALLABLES:
+                if fn in ops.CALLABLES or fn in _EXTRA:
                     data, mask = ref_callable(data, mask, ax, fn)
                 else:
                     data, mask = ref_reduce(data, mask, ax, fn)
@@ -219,6 +265,15 @@ def run(spec, res):
             if np.any(frac & keep):
                 # fractional result in an integer variable
                 gd = got.data.astype('f8')
+                if got.shape == data.shape and got.data.dtype.kind == 'f':
+                    # the result kept the fractional values (reduce_dim
+                    # stores the float array): judged like a float variable
+                    ok = snapshot.check_var(
+                        got, name, dims=vs.dims, data=np.asarray(data, 'f8'),
+                        mask=mask, rtol=64 * np.finfo('f8').eps * n,
+                        atol=1e-9)
+                    if not ok:
+                        continue
                 if got.shape == data.shape:
                     tr = np.trunc(np.asarray(data, 'f8'))
                     gm = got.mask if got.mask is not None else np.zeros(
@@ -286,9 +341,10 @@ def run(spec, res):
         res.viol('integer-truncation', 'variables %s: fractional %s stored '
                  'truncated into the integer variable' % (
                      truncs, [fn for fn in fnmap.values()]),
-                 apply=spec['apply'], vars=truncs)
+                 apply=spec['apply'], vars=truncs, form=form)
     if problems:
-        res.viol('wrong-values', '; '.join(problems[:6]),
-                 apply=spec['apply'],
+        res.viol('wrong-values' if form == 'method' else
+                 'wrong-values:' + form, '; '.join(problems[:6]),
+                 apply=spec['apply'], form=form, conv=spec.get('conv'),
                  masked=[n for n, v in before.vars.items()
                          if v.mask is not None and v.mask.any()])
